@@ -50,6 +50,11 @@ impl ParsleyParser for WhitespaceNoEOL {
         // is '\n' (10).  If so, rewind by one character.
         if (ws.last() == Some(&13)) & (buf.peek() == Some(10)) {
             buf.decr_cursor_unsafe();
+            // Giving back the '\r' may leave nothing consumed.
+            if buf.get_cursor() == start && !self.empty_ok {
+                let err = ErrorKind::GuardError("not at whitespace-noeol".to_string());
+                return Err(LocatedVal::new(err, start, start))
+            }
         }
         let end = buf.get_cursor();
         Ok(LocatedVal::new((), start, end))
